@@ -261,11 +261,62 @@ def has_float(d):
     return False
 
 
+def file_route(binpath, res):
+    """the link directory is one more way a document reaches the parser: the same link text that every other channel
+    accepts, with insignificant leading white space moving each multi-byte character of its content across every position of
+    a 4 KiB ... 64 KiB offset (where readers that work in blocks cut the text), raw and as escape sequences"""
+    import pipeline
+    W = scen.World(binpath)
+    steps = [scen.mk_step("build", 1, [W.kid("ed4")], [], [["ALLOW", "*"]], [["ALLOW", "*"]])]
+    layout = scen.mk_layout(W, ["ed4"], steps, [])
+    doc = pipeline.leaf_link("build", 0, byp={"stdout": "caf\u00e9 \u65e5\u672c \U0001F600 done", "stderr": "", "return-value": 0})
+    lw, link = scen.sign_all(binpath, [(layout, ["ed0"], "new"), (doc, ["ed4"], "new")], nproc=1)
+    keys = [[W.kid("ed0"), W.pub("ed0")]]
+    fname = f"build.{W.pfx('ed4')}.link"
+    cases = []
+    for spelling, text in (("raw", json.dumps(link, ensure_ascii=False)), ("escaped", json.dumps(link, ensure_ascii=True))):
+        tb = text.encode()
+        cases.append(scen.verify_case(lw, keys, {fname: text}, meta={"pad": 0, "spelling": spelling, "split": "-"}))
+        if spelling == "escaped":
+            marks = [(tb.index(b"\\u00e9"), 6), (tb.index(b"\\ud83d"), 12)]
+        else:
+            marks = [(tb.index(ch.encode()), len(ch.encode())) for ch in ("\u00e9", "\u65e5", "\U0001F600")]
+        for B in (4096, 8192, 16384, 32768, 65536):
+            for idx, ln in marks:
+                for sp in range(0, ln + 1):
+                    pad = B - (idx + sp)
+                    if pad < 0:
+                        continue
+                    ws = " " * pad if (B + sp) % 3 else ("\n" * (pad // 2) + " " * (pad - pad // 2))
+                    cases.append(scen.verify_case(lw, keys, {fname: ws + text}, meta={"pad": pad, "spelling": spelling, "split": f"{B}:{sp}/{ln}"}))
+    obs = common.run_sharded(binpath, cases)
+    ref = None
+    for c, o in zip(cases, obs):
+        m = c["meta"]
+        if scen.harness_failed(o):
+            res.inconclusive.append(f"executor failure: {str(o)[:200]}")
+            continue
+        r = o["runs"][0]
+        out = (r["v"], json.dumps(r.get("summary"), sort_keys=True) if r["v"] == "ok" else "")
+        if m["pad"] == 0 and m["spelling"] == "raw":
+            ref = out
+            if r["v"] != "ok":
+                res.inconclusive.append(f"file route: the plain link file is rejected: {r.get('e')}")
+                return
+        elif ref is not None and out != ref:
+            res.violate(f"file-route-depends-on-layout-of-text:{m['spelling']}",
+                        f"a link file whose text differs from an accepted one only by {m['pad']} leading white-space characters "
+                        f"({m['spelling']} spelling; a character at offset split {m['split']}) is "
+                        f"{'rejected: ' + str(r.get('e')) if r['v'] != 'ok' else 'read as another value'}", c, o, "same outcome")
+        res.note(["file_route", m["spelling"], m["pad"]], True, cls=["file_route:" + m["spelling"], "file_route:" + r["v"]])
+
+
 def main(ctx):
     res = common.Result()
     n = 350 if not ctx.thorough else 12000
     for p in common.pmap(shard, [(ctx.bin, ctx.seed, s, n) for s in range(common.NPROC)]):
         res.merge(p)
+    file_route(ctx.bin, res)
     return common.finish(
         PROP, ctx.tier, ctx.seed, res, t0=ctx.t0,
         rule="valid (75%) and single-field-mutated (25%) documents of 14 public types x 3 spellings (plain, whitespace, "
@@ -273,7 +324,7 @@ def main(ctx):
              "chunked from_reader, from_value, Json::from_reader/from_slice/deserialize, JsonPretty::from_reader); "
              "every document non-trivial; distinct by (type, text); evaluations = channel decodings",
         assumptions=["serde_json::Value parsing defines 'the same content' for a spelling"],
-        required=[f"all_channels_agree_ok:{t}" for t in ("metablock", "layout", "link", "pubkey", "rule", "step", "inspection", "statement", "predicate")] +
+        required=["file_route:raw", "file_route:escaped", "file_route:ok"] + [f"all_channels_agree_ok:{t}" for t in ("metablock", "layout", "link", "pubkey", "rule", "step", "inspection", "statement", "predicate")] +
                  ["contains_rules:ok", "contains_timestamp:ok", "mutated:err", "text:trailing_bracket:err", "text:two_documents:err",
                   "text:trailing_whitespace:ok", "text:leading_whitespace:ok", "text:truncated:err", "history:after_failed_read:ok",
                   "text:duplicate_member:err", "text:extra_number_member:ok", "text:extra_number_member_nested:ok"],
